@@ -4,12 +4,14 @@
 cd /verif/sim
 KNOWN="int-sign-then-nondigit|compact-long-near-halfway|compact-digit-limit|radix-long-near-halfway|radix-writer-digit-equals"
 run() { v=$1; f=$2; lo=$3; hi=$4; shift 4; echo "== $v $f $lo..$hi $*"; python3 sweep.py $v $f $lo $hi "$@" 2>&1 | grep -Ev "$KNOWN" | grep -v '^     e.g.' | cut -c1-400 | head -8; }
-run radix all 1000000 3000000
-run std all 1000000 1600000
-run compact all 1000000 1500000
-run pow2 all 1000000 1500000
-run radix_rel all 1000000 1500000
-run nostd all 1000000 1300000
-run std_rel all 1000000 1300000
-run std C16 1000000 1300000 --decimal-only
+run radix all 5000000 6200000
+run std all 5000000 5400000
+run compact all 5000000 5300000
+run pow2 all 5000000 5300000
+run radix_rel all 5000000 5300000
+run nostd all 5000000 5200000
+run std_rel all 5000000 5200000
+run radix C05 5000000 5300000
+run radix C07 5000000 5300000
+run std C01 5000000 5300000
 echo DONE
